@@ -14,6 +14,7 @@ pub fn nick_map<const N: usize, const B: usize, S: Src>(s: &mut S) {
     let mut buf = SBuf::<B>::new();
     x.fill(&mut buf);
     let input = buf.as_str();
+    pv_note!(s, "Nickname::additional_mapping_rule({:?})", input);
 
     let mut exp = ['\0'; N];
     let mut m = 0usize;
@@ -82,6 +83,7 @@ pub fn opaque_map<const N: usize, const B: usize, S: Src>(s: &mut S) {
     let mut buf = SBuf::<B>::new();
     x.fill(&mut buf);
     let input = buf.as_str();
+    pv_note!(s, "OpaqueString::additional_mapping_rule({:?})", input);
     let mut changed = false;
     let mut i = 0;
     while i < N {
@@ -134,6 +136,7 @@ pub fn one_char<S: Src>(s: &mut S) {
     let mut buf = SBuf::<4>::new();
     buf.push(c);
     let zs = oracle::is_zs(c as u32);
+    pv_note!(s, "additional_mapping_rule({:?}) on OpaqueString and Nickname", buf.as_str());
     pv_cover!(s, zs && (c as u32) > 0x3000 - 1, "COVER: U+3000");
     match OpaqueString::new().additional_mapping_rule(buf.as_str()) {
         Ok(out) => {
